@@ -150,13 +150,13 @@ class Check:
         return path
 
     # ---------------------------------------------------------- native
-    def native(self, routine, payload, timeout=120):
+    def native(self, routine, payload, timeout=120, module=None):
         """Run a replay routine of /verif/replay/<prop>_replay.py under the suite's
         interpreter against THIS repo tree. Returns the routine's JSON result."""
         env = dict(os.environ)
         env["PYTHONPATH"] = self.repo.src
         env["WAITRESS_VERIF"] = "1"
-        cmd = [NATIVE_PY, os.path.join(VERIF, "replay", "driver.py"), self.prop, routine]
+        cmd = [NATIVE_PY, os.path.join(VERIF, "replay", "driver.py"), module or self.prop, routine]
         try:
             p = subprocess.run(cmd, input=json.dumps(payload), capture_output=True, text=True, env=env, timeout=timeout, cwd="/")
         except subprocess.TimeoutExpired:
